@@ -54,7 +54,7 @@ REQUIRED = ["trees", "length_checked", "branch_features_checked", "path_features
             "lmeasure_node_checked", "lmeasure_bif_checked", "lmeasure_branch_checked",
             "frontend_tree_checked", "frontend_population_checked", "population_padding_checked",
             "frontend_requeried", "feature_queries_in_random_order",
-            "populations_of_trees_with_one_source",
+            "populations_of_trees_with_one_source", "size_sweep_cases",
             "single_node_trees", "root_is_tip_or_one_child", "tap_sholl_get", "tap_features_get"]
 FLOOR = {"quick": 500, "thorough": 40000}
 SHARDS = {"quick": 8, "thorough": 16}
@@ -473,6 +473,11 @@ def run(ctx):
                                  extras=0)
             case = {"kind": "tree", "tree": rc, "seed": int(rng.integers(0, 2**31 - 1))}
             ctx.case(case, nontrivial=rc["n"] >= 3, klass=f"tree/{rc['shape']}/{rc['geom']}")
+            execute(ctx, case)
+        for j, rc in enumerate(G.sweep_recipes(ctx, max_small=2050, geoms=["growth", "pythag"])):
+            case = {"kind": "tree", "tree": rc, "seed": 500 + j}
+            ctx.case(case, klass="size-sweep")
+            ctx.count("size_sweep_cases")
             execute(ctx, case)
         for j, rc in enumerate(G.real_recipes(rng, 1000 if ctx.quick else None)):
             if j % ctx.nshards == ctx.shard:
